@@ -58,6 +58,7 @@ LEAVES = [
     L("enum_case", {"type": "string", "enum": ["Foo", "foo", "FOO"]}, enf=True, strish=True),
     L("enum_kw", {"type": "string", "enum": ["type", "self", "Self", "ref"]}, enf=True, strish=True),
     L("enum_one", {"type": "string", "enum": ["only"]}, enf=True, strish=True),
+    L("enum_brace", {"type": "string", "enum": ["{x}", "a}", "{{", "%s {}"]}, enf=True, strish=True),
     L("enum_excl", {"type": "string", "enum": ["a", "bbb"], "maxLength": 2}, enf=True, strish=True),
     L("enum_mb", {"type": "string", "enum": ["éé", "abc"], "maxLength": 2}, enf=True, strish=True),
     L("enum_notype", {"enum": ["a", "b"]}, enf=True, strish=True),
@@ -188,6 +189,7 @@ SOLO_COMPOSITES = [
                                       obj({"B": obj({"v": obj({"y": STR}, ["y"])}, ["v"])}, ["B"], additionalProperties=False)]}),
     L("untagged_subset", {"oneOf": [obj({"name": STR}, ["name"], additionalProperties=False), obj({"name": STR, "email": STR}, ["name", "email"])]}),
     L("untagged_subset_rev", {"oneOf": [obj({"name": STR, "email": STR}, ["name", "email"]), obj({"name": STR}, ["name"], additionalProperties=False)]}),
+    L("untagged_vec_set", {"oneOf": [{"type": "array", "items": INT}, {"type": "array", "items": INT, "uniqueItems": True}]}, ff=False),
     L("untagged_arr_tuple", {"anyOf": [{"type": "array", "items": INT, "maxItems": 1},
                                        {"type": "array", "items": [INT, INT], "minItems": 2, "maxItems": 2}]}, ff=False),
     L("untagged_tuples_f64", {"oneOf": [{"type": "array", "items": [{"type": "number"}, {"type": "number"}], "minItems": 2, "maxItems": 2},
